@@ -54,10 +54,14 @@ def render(tokens, case_id):
     out = []
     line = []
     for t in tokens:
-        if isinstance(t, dict):
+        if isinstance(t, dict) and "raw" in t:
+            line.append(t["raw"])       # text that is not a token of the language (family lexical), verbatim
+        elif isinstance(t, dict):
             line.append(json.dumps(t["str"].replace("CASE", case_id)))
         else:
             line.append(t)
+        if isinstance(t, dict):
+            continue
         if t in (";", "{", "}") or (t == ")" and len(line) > 0 and line[0] in ("import", "options", ")")):
             out.append(" ".join(line))
             line = []
@@ -150,6 +154,20 @@ class Pipeline:
         def work(c):
             rec = c["rec"]
             skip = not rec["svc"]
+            c["inplace_ok"] = True
+            if rec["verdict"] == "accept":
+                # the output directory already holds the output of a LARGER version of the package (same file names):
+                # generating must replace it completely
+                pid = rec["pkgs"][0]["id"]
+                pad = os.path.join(self.root, "srcpad", c["id"])
+                shutil.copytree(os.path.join(self.src, c["id"]), pad)
+                first = os.path.join(pad, pid, rec["pkgs"][0]["files"][0]["name"])
+                with open(first, "a") as fh:
+                    fh.write("\nmessage ZzPadding {\n" + "".join("  pad_%d []string %d;\n" % (k, k) for k in range(1, 40)) + "}\n")
+                cmdp = [self.cli, "generate", "-i", pad] + (["--skip-rpc"] if skip else []) + [os.path.join(pad, pid), os.path.join(self.gen, c["id"], pid)]
+                pp = subprocess.run(cmdp, capture_output=True, text=True, timeout=30, cwd=self.root)
+                c["pad_exit"] = pp.returncode
+                shutil.rmtree(pad, ignore_errors=True)
             c["exit"], c["stderr"] = self._generate(c["id"], rec["pkgs"][0]["id"], skip, self.gen)
             c["dep_fail"] = None
             if c["exit"] == 0:
@@ -162,6 +180,7 @@ class Pipeline:
                 e2, _ = self._generate(c["id"], rec["pkgs"][0]["id"], skip, g2)
                 a = os.path.join(self.gen, c["id"], rec["pkgs"][0]["id"])
                 b = os.path.join(g2, c["id"], rec["pkgs"][0]["id"])
+                # (a: generated in place over the larger version; b: generated into an empty directory)
                 c["deterministic"] = e2 == 0 and sorted(os.listdir(a)) == sorted(os.listdir(b)) and all(
                     open(os.path.join(a, n), "rb").read() == open(os.path.join(b, n), "rb").read() for n in os.listdir(a))
                 shutil.rmtree(os.path.join(g2, c["id"]), ignore_errors=True)
